@@ -24,7 +24,8 @@ from pav.rig import SockRig, console_frames
 ID = "C13"
 LEVEL = "exploration"
 RULE = ("generated frame streams x enumerated/generated cut sets x generated inter-segment scheduling; non-trivial: at "
-        "least one cut falls strictly inside a frame; distinct by (stream bytes, cut set, scheduling)")
+        "least one cut falls strictly inside a frame; distinct by (stream bytes, cut set, scheduling)"
+        " Also: bursts of 9..40 frames, stalls of 31 s / 301 s inside a frame, a connection lost inside a frame followed by a re-sent stream, two sockets fed in alternation.")
 ASSUMPTIONS = ["frames are produced by the library's own encoder (its round trip is the subject of C03)",
                "one socket is reused for all segmentations of one stream (a long-lived connection)"]
 
